@@ -854,6 +854,9 @@ def _check_main_wiring(ctx: Ctx, main: FuncInfo, merge: FuncInfo) -> None:
                 and isinstance(t_.ops[0], (ast.IsNot, ast.Is)):
             lab = g[1] if isinstance(t_.ops[0], ast.IsNot) else ("F" if g[1] == "T" else "T")
             norm_guards.append((g[0], lab, origins(prog, main, t_.left, g[0])))
+        elif isinstance(t_, ast.UnaryOp) and isinstance(t_.op, ast.Not):
+            # `if not config_path: <skip>` passed on its false arm
+            norm_guards.append((g[0], "F" if g[1] == "T" else "T", origins(prog, main, t_.operand, g[0])))
         else:
             norm_guards.append(g)
     guards = norm_guards
